@@ -177,6 +177,11 @@ func familyExt(family, id string, g *Gen, blocks, maxTx int) *Scenario {
 			}
 		}
 		return sc
+	case "allegset":
+		if blocks < 26 {
+			blocks = 26
+		}
+		return g.AllegStory(id, blocks)
 	case "valset":
 		// staking activity, then a quiet tail (transfers only) so that the active set can converge
 		g.Hostile = 0.1
@@ -214,7 +219,7 @@ func familyKindsExt(family string) []string {
 		return DelegKinds
 	case "valset", "exodus":
 		return StakeKinds
-	case "alleg":
+	case "alleg", "allegset":
 		return AllegKinds
 	case "eth", "eth5":
 		return EthKinds
